@@ -444,7 +444,7 @@ def rand_chain(rng, L, nops=3, coeffs=DYADIC, charges=True, allow_zero=False, po
     return ptn.OpChain(oids, qn, co, ist)
 
 
-def rand_graph(rng, L, idbase=0, maxw=3, nops=3, charges=True, pool=None):
+def rand_graph(rng, L, idbase=0, maxw=3, nops=3, charges=True, pool=None, zero_edges=False):
     """Random consistent layered graph with parallel edges, multi-operator edges, non-contiguous ids. In half of the cases node ids are NOT monotone along
     the layers (random permutation, negative ids), the node list handed to OpGraph is shuffled, and edge ids / insertion order are shuffled as well."""
     widths = [1] + [int(rng.integers(1, maxw + 1)) for _ in range(L - 1)] + [1]
@@ -481,10 +481,19 @@ def rand_graph(rng, L, idbase=0, maxw=3, nops=3, charges=True, pool=None):
         for b in layers[l + 1]:
             pairs.add((int(rng.choice(layers[l])), b))
         pairs = sorted(pairs)
+        nreq = len(pairs)
         for _ in range(int(rng.integers(0, 3))):
             pairs.append((int(rng.choice(layers[l])), int(rng.choice(layers[l + 1]))))
-        for a, b in pairs:
+        zero_first = rng.random() < 0.5
+        for ip, (a, b) in enumerate(pairs):
             nop = int(rng.integers(1, 3))
+            if zero_edges and ip >= nreq and rng.random() < 0.35:
+                # a ZERO edge (empty operator list: the zero operator), only among the extra edges so that every path structure stays intact
+                if zero_first:
+                    specs.insert(max(len(specs) - ip, 0), ([a, b], []))
+                else:
+                    specs.append(([a, b], []))
+                continue
             opics = [(int(rng.integers(0, nops)) if pool is None else int(pool[int(rng.integers(0, min(nops, len(pool))))]), float(rng.choice([-1, -.5, .5, 1, 2]))) for _ in range(nop)]
             specs.append(([a, b], opics))
     eids = []
@@ -911,7 +920,7 @@ def add_twin_paths(rng, g, ntwins=None):
             last = j == len(path) - 1
             if last:
                 tgt = nxt
-                opics = list(e.opics) if rng.random() < 0.5 else [(e.opics[0][0], float(rng.choice([-1, .5, 2])))]
+                opics = list(e.opics) if (rng.random() < 0.5 or not e.opics) else [(e.opics[0][0], float(rng.choice([-1, .5, 2])))]
             else:
                 q = nxt.qnum if rng.random() < 0.6 else nxt.qnum + int(rng.choice([-1, 1, 2]))
                 tgt = ptn.OpGraphNode(nid_next, [], [], q)
@@ -1019,3 +1028,15 @@ def bond_gauge_pow2(rng, T, exps=(0, 0, 20, -20, 45, -45, 60, -60)):
                 else:
                     T.A[i + 1] = a * f
     return big
+
+
+def shifted_operator(H, c):
+    """H + c * identity as an MPO (harness-side block sum with the identity MPO whose first tensor carries the factor c): the same eigenvectors, the spectrum
+    moved by c -- e.g. to an all-positive or a far negative spectrum. Requires dummy boundary bonds with label 0."""
+    L = len(H.A)
+    d = len(H.qd)
+    I = ptn.MPO(H.qd, [np.zeros(1, dtype=int) for _ in range(L + 1)], fill='postpone')
+    I.A = [np.identity(d, dtype=complex).reshape(d, d, 1, 1) * (c if i == 0 else 1.0) for i in range(L)]
+    Hc = ptn.MPO(H.qd, [np.array(q, copy=True) for q in H.qD], fill='postpone')
+    Hc.A = [np.array(a, dtype=complex) for a in H.A]
+    return mpo_sum(Hc, I)
